@@ -1519,6 +1519,15 @@ func (vc *FnVC) callPreTags() []string {
 			out = append(out, t)
 		}
 	}
+	// `option callpre-tags C10`: the callee pre- and no-panic conditions (only) also belong to
+	// these properties, for functions whose other safety obligations are not claimed
+	if vc.fc != nil {
+		for _, t := range strings.Fields(vc.fc.Options["callpre-tags"]) {
+			if !hasTag(out, t) {
+				out = append(out, t)
+			}
+		}
+	}
 	return out
 }
 
